@@ -60,14 +60,16 @@ def source_hash(repo=REPO):
     return h.hexdigest()[:24]
 
 
-def extract(config='default', repo=REPO, force=False, log=None):
-    """Returns (facts_dir, info dict)."""
+def extract(config='default', repo=REPO, force=False, log=None, facts_root=None):
+    """Returns (facts_dir, info dict).  facts_root: where to keep the fact files (default .work/facts, pruned to the newest 8;
+    the self-validation bank passes a directory inside its scratch copy, which is exempt from pruning and deleted with the copy)."""
     if not os.path.exists(DRIVER):
         raise ExtractError('driver not built: run setup_cmd (./setup.sh)')
     os.makedirs(WORK, exist_ok=True)
     t0 = time.time()
     key = source_hash(repo)
-    facts_root = os.path.join(WORK, 'facts')
+    private = facts_root is not None
+    facts_root = facts_root or os.path.join(WORK, 'facts')
     os.makedirs(facts_root, exist_ok=True)
     out = os.path.join(facts_root, '%s-%s' % (config, key))
     lock_path = os.path.join(WORK, 'extract.lock')
@@ -122,9 +124,10 @@ def extract(config='default', repo=REPO, force=False, log=None):
                 'reused': False, 'extract_s': round(time.time() - t0, 2)}
         json.dump(info, open(stamp, 'w'))
         # keep the facts directory small: drop extractions older than the newest 6
-        entries = sorted((os.path.getmtime(os.path.join(facts_root, d)), d) for d in os.listdir(facts_root))
-        for _, d in entries[:-8]:
-            shutil.rmtree(os.path.join(facts_root, d), ignore_errors=True)
+        if not private:
+            entries = sorted((os.path.getmtime(os.path.join(facts_root, d)), d) for d in os.listdir(facts_root))
+            for _, d in entries[:-8]:
+                shutil.rmtree(os.path.join(facts_root, d), ignore_errors=True)
         info['wall_s'] = round(time.time() - t0, 2)
         return out, info
 
